@@ -519,6 +519,7 @@ func runBits(c *hlib.Ctx, n int) {
 			c.Emit(fmt.Sprintf("c07 circleb %s %s %s %s %s", v3Tok(hx, nrm), v3Tok(hx, ctr), hx(rad), v3Tok(hx, r.Origin), v3Tok(hx, r.Direction)), out)
 		}
 	}
+	runBitsCone(c, n)
 	// --- Cylinder and Capsule
 	for i := 0; i < n; i++ {
 		p1 := rnd3(c)
@@ -541,6 +542,43 @@ func runBits(c *hlib.Ctx, n int) {
 			c.Emit(fmt.Sprintf("c07 capb %s %s %s %s %s", v3Tok(hx, p1), v3Tok(hx, p2), hx(rad), v3Tok(hx, r.Origin), v3Tok(hx, r.Direction)),
 				runStr(hx, ob, 3)+" I "+b01(capsule.Contains(r.Origin)))
 		}
+	}
+}
+
+// runBitsCone: Cone.RayCollisions / FirstRayCollision bit for bit (side polynomial via the quadratic branch of
+// numerical.Polynomial.IterRealRoots, safeNormal, base disc).
+func runBitsCone(c *hlib.Ctx, n int) {
+	for i := 0; i < n; i++ {
+		tip := rnd3(c)
+		base := tip.Add(randAxis3(c).Scale(randPos(c, 0.2, 3)))
+		if c.Rng.Intn(4) == 0 {
+			// axis-aligned cone (exercises the branches of OrthoBasis)
+			var a [3]float64
+			a[c.Rng.Intn(3)] = randPos(c, 0.2, 3) * float64(1-2*c.Rng.Intn(2))
+			base = tip.Add(model3d.NewCoord3DArray(a))
+		}
+		cone := &model3d.Cone{Tip: tip, Base: base, Radius: randPos(c, 0.2, 2)}
+		r := bray3(c, cone.Min(), cone.Max())
+		switch c.Rng.Intn(8) {
+		case 0:
+			// through the apex / along the axis
+			r.Direction = tip.Sub(r.Origin)
+			if r.Direction.Norm() < 1e-9 {
+				r.Direction = base.Sub(tip)
+			}
+		case 1:
+			r.Origin = tip.Mid(base)
+			r.Direction = base.Sub(tip).Scale(rnd(c))
+			if r.Direction.Norm() < 1e-9 {
+				r.Direction = base.Sub(tip)
+			}
+		}
+		ob := observe3(cone, r)
+		if tiedScales(ob.ts) && ob.ok {
+			// FirstRayCollision keeps the first of equal minima: covered, nothing to skip
+		}
+		c.Stat(fmt.Sprintf("coneb.hits.%d", minInt(ob.n1, 4)), 1)
+		c.Emit(fmt.Sprintf("c07 coneb %s %s %s %s %s", v3Tok(hx, tip), v3Tok(hx, base), hx(cone.Radius), v3Tok(hx, r.Origin), v3Tok(hx, r.Direction)), runStr(hx, ob, 3))
 	}
 }
 
@@ -580,6 +618,12 @@ func runBall(c *hlib.Ctx, n int) {
 				r = 1.0 / 64
 			}
 		}
+		if !separated(r, t.Dist(ctr)) {
+			// tangent within rounding: the library evaluates the foot of the perpendicular with an inexact
+			// division, so rounding decides; not a statement of the property (open vs closed ball)
+			c.Stat("ballx.skipped-tangent", 1)
+			continue
+		}
 		got := t.SphereCollision(ctr, r)
 		c.Stat("ballx."+b01(got), 1)
 		c.Emit(fmt.Sprintf("c07 ballx %s %s %s", triTokens(rs, t), v3Tok(rs, ctr), rs(r)), b01(got))
@@ -598,6 +642,10 @@ func runBall(c *hlib.Ctx, n int) {
 			if r <= 0 {
 				r = 1.0 / 64
 			}
+		}
+		if !separated(r, s.Dist(ctr)) {
+			c.Stat("circx.skipped-tangent", 1)
+			continue
 		}
 		got := s.CircleCollision(ctr, r)
 		c.Stat("circx."+b01(got), 1)
